@@ -208,15 +208,17 @@ Fixpoint value_compare (a b : value) {struct a} : bool :=
   | VString x, VString y => String.eqb x y
   | VEnum x, VEnum y => name_eqb x y
   | VList x, VList y =>
+      Nat.eqb (List.length x) (List.length y) &&
       (fix go (x y : list value) : bool :=
          match x, y with
          | u :: x', v :: y' => value_compare u v && go x' y'
          | _, _ => true
          end) x y
   | VObject x, VObject y =>
+      Nat.eqb (List.length x) (List.length y) &&
       (fix go (x y : list (name * value)) : bool :=
          match x, y with
-         | (_, u) :: x', (_, v) :: y' => value_compare u v && go x' y'
+         | (k, u) :: x', (k', v) :: y' => name_eqb k k' && value_compare u v && go x' y'
          | _, _ => true
          end) x y
   | VVar x, VVar y => name_eqb x y
@@ -241,9 +243,11 @@ Definition iv_is_required (iv : input_value_def) : bool :=
 (* ---- FragmentSpreadExtraction ---- *)
 Definition get_fragment_spreads (sels : list selection) : list (pos * name) :=
   flat_map (fun x => match x with SSpread p n _ => [(p, n)] | _ => [] end) sels.
+Fixpoint spreads_of_selection (x : selection) : list (pos * name) :=
+  match x with
+  | SSpread p n _ => [(p, n)]
+  | SField _ _ _ _ _ _ ss => flat_map spreads_of_selection ss
+  | SInline _ _ _ _ ss => flat_map spreads_of_selection ss
+  end.
 Definition get_recursive_fragment_spreads (sels : list selection) : list (pos * name) :=
-  flat_map (fun x => match x with
-                     | SSpread p n _ => [(p, n)]
-                     | SField _ _ _ _ _ _ ss => get_fragment_spreads ss
-                     | SInline _ _ _ _ ss => get_fragment_spreads ss
-                     end) sels.
+  flat_map spreads_of_selection sels.
